@@ -256,6 +256,64 @@ def oracle(run, name, f, truth, meths, degenerate_case=False):
                                      "method": m}, theorem="accuracy")
 
 
+def curve_history(run):
+    """Indentation.estimate_contact_point_index after preprocessing, after a
+    rejected preprocessing request, after a fit, after new preprocessing: it
+    is always the estimate for the force column the curve has NOW"""
+    from nanite import IndentationGroup, poc
+    path = common.REPO / "tests" / "data" / (
+        "fmt-jpk-fd_single_tilted-baseline-drift-mitotic_2021-01-29"
+        ".jpk-force")
+    if not path.exists():
+        run.count("curve-history-data-missing")
+        return
+    idnt = IndentationGroup(path)[0]
+    moves = [
+        ("shape-changing preprocessing", lambda: idnt.apply_preprocessing(
+            ["compute_tip_position", "correct_tip_offset",
+             "correct_force_slope"], options={
+                 "correct_tip_offset": {"method": "fit_line_polynomial"},
+                 "correct_force_slope": {"region": "all",
+                                         "strategy": "drift"}})),
+        ("rejected request", lambda: idnt.apply_preprocessing(
+            ["correct_tip_offset"])),
+        ("offset preprocessing", lambda: idnt.apply_preprocessing(
+            ["compute_tip_position", "correct_force_offset"])),
+        ("fit", lambda: idnt.fit_model(model_key="hertz_para")),
+        ("slope preprocessing again", lambda: idnt.apply_preprocessing(
+            ["compute_tip_position", "correct_tip_offset",
+             "correct_force_slope"], options={
+                 "correct_force_slope": {"region": "all",
+                                         "strategy": "drift"}})),
+    ]
+    meths = ["deviation_from_baseline", "fit_constant_line",
+             "gradient_zero_crossing"]
+    for mname, mv in moves:
+        try:
+            with warnings.catch_warnings():
+                warnings.simplefilter("ignore")
+                mv()
+        except BaseException:
+            pass
+        for m in meths:
+            run.case({"curve-history": mname, "method": m},
+                     kind="curve-history:" + m)
+            try:
+                with warnings.catch_warnings():
+                    warnings.simplefilter("ignore")
+                    got = idnt.estimate_contact_point_index(method=m)
+                    want = poc.compute_poc(np.array(idnt["force"], copy=True),
+                                           m)
+            except BaseException as e:
+                got, want = f"{type(e).__name__}: {e}", None
+            if got != want:
+                run.failing(SITE, f"curve-history|{mname}|{m}",
+                            f"after '{mname}': estimate_contact_point_index("
+                            f"{m}) = {got!r}, compute_poc on the curve's "
+                            f"current force = {want!r}",
+                            payload={"kind": "rerun"}, theorem="C08_valid_*")
+
+
 # --------------------------------------------------------------------------
 # correspondence with the Coq model (small arrays)
 # --------------------------------------------------------------------------
@@ -331,6 +389,7 @@ def check(run):
         oracle(run, name, f, truth, meths)
     for name, f in degenerate().items():
         oracle(run, "degenerate:" + name, f, None, meths, degenerate_case=True)
+    curve_history(run)
     # unknown method
     try:
         call(np.linspace(0, 1, 50), "no_such_method")
